@@ -691,7 +691,7 @@ pub fn run(run: &mut Run) -> Result<(), String> {
             let corpus = corpus_positions(q, &run.sink);
             if q {
                 plan.raws.push((Box::new(ThreeMen { bk: None }), b(0, 0)));
-                plan.raws.push((Box::new(Castle { extra: 1 }), b(0, 0)));
+                plan.raws.push((Box::new(Castle { extra: 1, ek_rank2: false }), b(0, 0)));
                 plan.raws.push((Box::new(EpUniverse::reduced()), b(0, 0)));
                 plan.raws.push((Box::new(Checks { n: 2 }), b(0, 0)));
                 // boards with rooks on both sides of both kings, all 9^4 right assignments
@@ -710,7 +710,7 @@ pub fn run(run: &mut Run) -> Result<(), String> {
                 plan.raws.push((Box::new(RightsProduct { corpus: rc }), b(0, 0)));
                 plan.raws.push((Box::new(ThreeMen { bk: None }), b(0, 0)));
                 plan.raws.push((Box::new(FourMen { kings: None, with_flags: false }), b(0, 0)));
-                plan.raws.push((Box::new(Castle { extra: 2 }), b(0, 0)));
+                plan.raws.push((Box::new(Castle { extra: 2, ek_rank2: false }), b(0, 0)));
                 plan.raws.push((Box::new(EpUniverse::full()), b(0, 0)));
                 plan.raws.push((Box::new(Checks { n: 3 }), b(0, 0)));
                 plan.raws.push((Box::new(Edit { corpus, two_edits_for_first: 12 }), b(0, 0)));
@@ -732,6 +732,7 @@ pub fn run(run: &mut Run) -> Result<(), String> {
                 plan.dfrc = Some((0..960, 16, b(0, 0)));
                 plan.lines = Some(b(2, 1));
                 if prop == "C10" || prop == "C07" {
+                    plan.raws.push((Box::new(EpUniverse::before_push(q)), b(1, 0)));
                     plan.raws.push((Box::new(TwoLines { enemy_kings: vec![35] }), b(if prop == "C10" { 1 } else { 0 }, 0)));
                     plan.raws.push((Box::new(EpUniverse::own_sliders()), b(1, 0)));
                 }
@@ -741,7 +742,7 @@ pub fn run(run: &mut Run) -> Result<(), String> {
                     plan.raws.push((Box::new(DoubleCheck { kings: vec![4, 0], own_kinds: vec![Kind::P, Kind::N] }), b(0, 0)));
                 }
                 plan.raws.push((Box::new(ThreeMen { bk: if prop == "C07" { None } else { Some(sub8.clone()) } }), b(if prop == "C10" { 1 } else { 0 }, 1)));
-                plan.raws.push((Box::new(Castle { extra: 1 }), b(if prop == "C10" { 1 } else { 0 }, 1)));
+                plan.raws.push((Box::new(Castle { extra: 1, ek_rank2: false }), b(if prop == "C10" { 1 } else { 0 }, 1)));
                 plan.raws.push((Box::new(EpUniverse::reduced()), b(if prop == "C10" { 1 } else { 0 }, 1)));
                 if prop == "C12" {
                     plan.raws.push((Box::new(Checks { n: 2 }), b(0, 0)));
@@ -753,12 +754,13 @@ pub fn run(run: &mut Run) -> Result<(), String> {
                 plan.clock = Some(b(3, 2));
                 plan.dfrc = Some((0..960, 1, b(0, 0)));
                 plan.lines = Some(b(3, 2));
+                plan.raws.push((Box::new(EpUniverse::before_push(q)), b(1, 0)));
                 plan.raws.push((Box::new(CastleBox { max_items: 4 }), b(if prop == "C12" { 1 } else { 0 }, 0)));
                 plan.raws.push((Box::new(TwoLines { enemy_kings: vec![35, 60, 63] }), b(1, 0)));
                 plan.raws.push((Box::new(DoubleCheck { kings: vec![4, 27, 0, 60], own_kinds: NONKING.to_vec() }), b(0, 0)));
                 plan.raws.push((Box::new(ThreeMen { bk: None }), b(1, 1)));
                 plan.raws.push((Box::new(FourMen { kings: if prop == "C10" { Some(six_king_placements()) } else if prop == "C12" { Some(king_pairs_stride(2)) } else { None }, with_flags: false }), b(0, 0)));
-                plan.raws.push((Box::new(Castle { extra: 2 }), b(if prop == "C10" { 1 } else { 0 }, 1)));
+                plan.raws.push((Box::new(Castle { extra: 2, ek_rank2: false }), b(if prop == "C10" { 1 } else { 0 }, 1)));
                 plan.raws.push((Box::new(EpUniverse::full()), b(1, 1)));
                 plan.raws.push((Box::new(Checks { n: 3 }), b(0, 0)));
             }
@@ -791,7 +793,7 @@ pub fn run(run: &mut Run) -> Result<(), String> {
                 plan.raws.push((Box::new(EpUniverse::full()), b(0, 0)));
                 plan.raws.push((Box::new(EpExposure), b(0, 0)));
                 plan.raws.push((Box::new(EpUniverse::own_sliders()), b(1, 0)));
-                plan.raws.push((Box::new(Castle { extra: 1 }), b(0, 0)));
+                plan.raws.push((Box::new(Castle { extra: 1, ek_rank2: false }), b(0, 0)));
             }
             run.rule = "for every visited state a cluster of variants built through the library (en-passant file none / each accepted file, two clock pairs, each single right removed, three successors, null-move successor): same_position on all ordered pairs vs FIDE identity by the reference model, plus reflexivity / symmetry / transitivity of the observed answers".into();
             run_plan(run, &plan, mon.as_ref(), &NoCand);
